@@ -565,7 +565,12 @@ def run(tier):
     big = [v for v in envs_all if len(v["env"]) == 3]
     if quick:
         big = rng.sample(big, 300)
-    envs = [{"env": e, "look": None} for e in EXTRA_ENVS] + small + big
+    # longer blocks (4..6 entries) drawn at random from the same 23 entries (the judge derives the expected
+    # answers itself, so these need no generator output)
+    entries = sorted({tuple(e) for v in small for e in v["env"]})
+    longer = [{"env": [list(rng.choice(entries)) for _ in range(rng.randint(4, 6))], "look": None}
+              for _ in range(150 if quick else 2000)]
+    envs = [{"env": e, "look": None} for e in EXTRA_ENVS] + small + big + longer
     many_env = [list(b"K%02d=v%d" % (i, i)) for i in range(50)] + [list(b"K07=again"), list(b"K4=short"), list(b"novalue")]
     extra_cases = [
         # many arguments / many entries; keys: first, last, middle, absent, a key that is a proper prefix of ten names,
@@ -656,7 +661,7 @@ def run(tier):
                 "without the aux feature) x debug/release with all 7 keys looked up through var and var_unix; every run is one record judged by TLC "
                 "(StartupJudge.tla: args, lookups, aux getters vs /proc/<pid>/auxv, clock order). non-trivial = distinct blocks that have a "
                 "duplicate name or two names one a proper prefix of the other" % (
-                    "all blocks of <= 2 entries plus a seeded sample of 300 3-entry blocks" if quick else "all 12 720 of them"))
+                    "all blocks of <= 2 entries plus a seeded sample of 300 3-entry blocks" if quick else "all 12 720 of them") + " (plus %d random blocks of 4..6 entries and a few hand-written cases: 40 arguments / 53 entries, non-UTF-8 names, 200-byte and 20 000-byte strings)" % (150 if quick else 2000))
     chk.assumptions = ["x86_64 only; kernel passes each aux key at most once",
                        "correctness of REL/RELA self-relocation is observed through 'the static-PIE probe starts and answers correctly'",
                        "for the empty key 'missing' is admitted next to the definitional answer (names are non-empty in POSIX)",
